@@ -69,6 +69,20 @@ def gen_pcs(m, rng, job):
     return oplist, {}
 
 
+def gen_pcs_boundary(m, rng, job):
+    """Every code point around the byte classes of a control sequence, as body byte / final byte / after ESC."""
+    oplist = []
+    cpsel = list(range(0x1a, 0x82)) + [0, 7, 9, 10, 0x9b, 0xa0, 0xff, 0x100, 0x2028]
+    for c in cpsel:
+        ch = chr(c)
+        for s in ('a\x1b[1' + ch + 'b\x1b[2m', '\x1b[' + ch, '\x1b[' + ch + ch + 'x', 'x\x1b' + ch + '[1m', '\x1b[3' + ch + 'xy\x1b[1' + ch):
+            for allow, acc in ((True, None), (False, None), (False, 'm'), (True, ch)):
+                o = {'op': 'pcs', 's': s, 'allow': allow, 'acc': acc}
+                oplist.append(o)
+                ops.run(m, o)
+    return oplist, {}
+
+
 HELPERS1 = ['cursor_up_str', 'cursor_down_str', 'cursor_forward_str', 'cursor_backward_str', 'cursor_back_str',
             'cursor_next_line_str', 'cursor_previous_line_str', 'cursor_horizontal_absolute_str', 'erase_in_display_str',
             'erase_in_line_str', 'scroll_up_str', 'scroll_down_str']
